@@ -32,6 +32,7 @@ def dequeFlow : Flow LOp LRes where
     | .peek, .val v true | .peekTail, .val v true => some v
     | _, _ => none
 
-def monC12 : ObsMonitor Obs (FlowSt LOp) := monFlow dequeFlow
+/-- environment observables (`env rlock`/`env runlock`) are ignored by the monitor -/
+def monC12 : ObsMonitor Obs (FlowSt LOp) := (monFlow dequeFlow).comapOpt Obs.toH
 
 end UtilModel.LinkedList
